@@ -131,3 +131,31 @@ def malt_frame(tb):
 
 def exc_bucket(e):
   return '%s@%s' % (type(e).__name__, malt_frame(e.__traceback__))
+
+
+def forget_generated(mod):
+  """Drops the public transpiler's cache entries for code objects compiled from `mod`'s file.
+
+  malt's cache is keyed by code-object *equality* (file name excluded) through weak references:
+  look-alike functions of an earlier generated module would otherwise hand their conversion to a
+  later case (even with different source when the difference is dead code CPython eliminates),
+  and letting an equal older code object die mid-conversion races the lookup. Both are C10
+  matters; other checks isolate their cases with this helper.
+  """
+  path = getattr(mod, '__file__', None)
+  try:
+    c = api._TRANSPILER._cache._cache
+    for k in list(c.keys()):
+      if getattr(k, 'co_filename', None) == path:
+        del c[k]
+  except Exception:
+    pass
+  try:
+    from malt.impl import conversion
+    c2 = conversion._ALLOWLIST_CACHE._cache
+    for k in list(c2.keys()):
+      code = getattr(k, '__code__', None)
+      if getattr(code, 'co_filename', None) == path:
+        del c2[k]
+  except Exception:
+    pass
